@@ -806,10 +806,31 @@ func init() {
 		{File: "serverConn.go", Old: "		sc.h(ctx)\n	}()\n}", New: "		sc.h(ctx)\n	}()\n\n	ctx.Request.Header.SetProtocolBytes(StringHTTP2)\n}"},
 	}})
 	mutant("data-appended-to-a-finished-request", "request-ctx-handoff", "serverConn.go", "		if strm.State() >= StreamStateHalfClosed {\n			return NewGoAwayError(StreamClosedError, \"stream closed\")\n		}\n\n		data := fr.Body().(*Data).Data()", "		data := fr.Body().(*Data).Data()")
-	mutant("read-error-frame-released", "frame-with-error-untouched", "conn.go", "		fr, err := c.readNext()\n		if err != nil {\n			c.setLastErr(err)\n", "		fr, err := c.readNext()\n		if err != nil {\n			c.setLastErr(err)\n			ReleaseFrameHeader(fr)\n")
-	mutant("handshake-frame-read-before-error-test", "frame-with-error-untouched", "conn.go", "err == nil && fr.Type() != FrameSettings {", "fr.Type() != FrameSettings && err == nil {")
+	mutant("read-error-frame-released", "result-with-error-untouched", "conn.go", "		fr, err := c.readNext()\n		if err != nil {\n			c.setLastErr(err)\n", "		fr, err := c.readNext()\n		if err != nil {\n			c.setLastErr(err)\n			ReleaseFrameHeader(fr)\n")
+	mutant("handshake-frame-read-before-error-test", "result-with-error-untouched", "conn.go", "err == nil && fr.Type() != FrameSettings {", "fr.Type() != FrameSettings && err == nil {")
 	allMutants = append(allMutants, Mutant{Name: "body-compared-before-counted", Rule: "buffer-append-bounded", Subs: []Subst{
 		{File: "serverConn.go", Old: "		strm.recvBody += len(data)\n\n		// Accounted", New: "		// Accounted"},
 		{File: "serverConn.go", Old: "		strm.ctx.Request.AppendBody(data)", New: "		strm.recvBody += len(data)\n		strm.ctx.Request.AppendBody(data)"},
 	}})
+}
+
+func init() {
+	mutant("release-keeps-the-ctx", "mutex-released-on-every-path", "client.go", "func (ctx *Ctx) release() {\n	ctx.lck.Unlock()\n}", "func (ctx *Ctx) release() {\n}")
+	mutant("second-close-keeps-the-client-lock", "mutex-released-on-every-path", "client.go", "	if cl.closed {\n		cl.lck.Unlock()\n		return nil\n	}", "	if cl.closed {\n		return nil\n	}")
+	mutant("close-keeps-the-client-lock", "mutex-released-on-every-path", "client.go", "	// to be released first.\n	cl.lck.Unlock()\n", "	// to be released first.\n")
+	mutant("takeback-keeps-the-ctx", "mutex-released-on-every-path", "client.go", "	ctx.done = true\n	ctx.lck.Unlock()\n", "	ctx.done = true\n")
+}
+
+func init() {
+	mutant("picked-connection-used-despite-error", "result-with-error-untouched", "client.go", "	c, err := cl.pickConn()\n	if err != nil {\n		return err\n	}\n", "	c, err := cl.pickConn()\n")
+	mutant("zero-timeout-stays-zero", "client-pool-shape", "client.go", "		opts.MaxResponseTime = DefaultMaxResponseTime\n", "")
+	mutant("options-stored-unsanitized", "client-pool-shape", "client.go", "	opts.sanitize()\n", "")
+	mutant("timeout-cancels-on-no-connection", "client-pool-shape", "client.go", "	if c := ctx.conn.Load(); c != nil {\n		c.cancel(ctx)", "	if c := ctx.conn.Load(); c == nil {\n		c.cancel(ctx)")
+	mutant("pooled-ctx-without-timer", "client-pool-shape", "client.go", "		ctx.timer = time.AfterFunc(timerDisarmed, ctx.fireTimeout)\n		ctx.timer.Stop()\n", "")
+	mutant("close-does-not-mark-closed", "client-pool-shape", "client.go", "	cl.closed = true\n\n	conns := make", "	conns := make")
+	mutant("close-forgets-the-connections", "client-pool-shape", "client.go", "		conns = append(conns, e.Value.(*Conn))\n", "		_ = e\n")
+	mutant("close-stops-at-first-error", "client-pool-shape", "client.go", "			err = cerr\n		}", "			err = cerr\n			break\n		}")
+	mutant("closed-client-still-picks", "client-pool-shape", "client.go", "	if cl.closed {\n		return nil, ErrClientClosed\n	}\n", "")
+	mutant("closed-client-redials", "client-pool-shape", "client.go", "	if cl.closed {\n		return\n	}\n", "")
+	mutant("retry-loop-unbounded", "client-pool-shape", "client.go", "		if attempt == roundTripAttempts-1 {", "		if attempt == roundTripAttempts-1 && !streamed {")
 }
